@@ -33,10 +33,10 @@ type Result struct {
 	Livelock    bool     // step horizon exceeded
 	Diverged    bool     // replay met a different situation than recorded: nondeterminism not owned
 	DivergeInfo string
-	Picks       int // selects with several ready cases resolved by the scheduler
+	Picks       int  // selects with several ready cases resolved by the scheduler
 	WrongBranch bool // the Go runtime took another ready case than asked for: the execution is to be discarded and repeated
-	Racy        int // evaluations of an awaited select with more than one ready case (Go picks at random)
-	RacyAt      int // number of prefix points honoured before a racy divergence (-1: none)
+	Racy        int  // evaluations of an awaited select with more than one ready case (Go picks at random)
+	RacyAt      int  // number of prefix points honoured before a racy divergence (-1: none)
 	Panics      []string
 	Names       []string // thread names by id
 }
@@ -93,19 +93,19 @@ type thread struct {
 
 // Exec is one controlled execution.
 type Exec struct {
-	mu       sync.Mutex // protects registration from adopted goroutines only
-	threads  []*thread
-	cur      *thread
-	prefix   []int
-	expectN  []int
-	res      *Result
-	steps    int
-	horizon  int
-	doneCh   chan struct{}
-	finished bool
-	adopted  chan struct{}
-	clock    int
-	progress chan struct{}
+	mu          sync.Mutex // protects registration from adopted goroutines only
+	threads     []*thread
+	cur         *thread
+	prefix      []int
+	expectN     []int
+	res         *Result
+	steps       int
+	horizon     int
+	doneCh      chan struct{}
+	finished    bool
+	adopted     chan struct{}
+	clock       int
+	progress    chan struct{}
 	expect      int
 	adoptedObjs map[interface{}]bool
 	// OnPoint, if set, is called at every point while no thread runs (invariant monitors).
